@@ -514,6 +514,27 @@ def check_C06(cx):
     for a in reps:
         for b in reps:
             progs.append((14, a + b"\n" + b))
+    # every ordered pair of MNEMONICS that share their first letter (one accepted line each): what a lookup leaves behind for the next line
+    # (a cache, a hint, a table position) would show between neighbours of the table
+    by_mn = {}
+    tries = 0
+    while tries < 60000 and len(by_mn) < 400:
+        tries += 1
+        l = g.valid_line()
+        mn = l.split()[0] if l.split() else ""
+        if mn and mn not in by_mn and all(32 <= ord(c) < 127 for c in l) and ";" not in l and ":" not in l:
+            by_mn[mn] = l.encode()
+    for l in reps:
+        by_mn.setdefault(l.split()[0].decode(), l)
+    okl = impl_line_results(impl, [(14, l) for l in by_mn.values()])
+    by_mn = {m: l for m, l in by_mn.items() if okl[(14, l)][0] == "0"}
+    mns = sorted(by_mn)
+    nmn = 0
+    for a in mns:
+        for b in mns:
+            if a != b and a[0] == b[0] and (cx.tier == "thorough" or zlib.crc32((a + "," + b).encode()) % 2 == 0 or abs(mns.index(a) - mns.index(b)) <= 3):
+                progs.append((14, by_mn[a] + b"\n" + by_mn[b]))
+                nmn += 1
     npairs = len(progs)
     # random longer programs, other option bytes, CR/CRLF, comment/label lines
     for _ in range(600 if cx.tier == "quick" else 6000):
@@ -2327,7 +2348,7 @@ def check_enc(cx):
 
 
 ENC_THEOREMS = {
-    "C01": ["AL.Properties.Sweep.c01_sweep", "AL.Properties.C01.nop_table_decodes", "AL.Properties.C01.no_operand_lines", "AL.Properties.C01.letter_case_irrelevant"],
+    "C01": ["AL.Properties.Sweep.c01_sweep", "AL.Properties.C01.nop_table_decodes", "AL.Properties.C01.no_operand_lines", "AL.Properties.C01.letter_case_irrelevant", "AL.Properties.C01.regpair_fields"],
     "C02": ["AL.Properties.Sweep.c02_sweep", "AL.Properties.Sweep.c02_sweep_mixed", "AL.Properties.C02.disp_field_reads_back", "AL.Properties.C02.decoder_reads_every_operand", "AL.Properties.C02.mov_load_every_disp", "AL.Properties.C02.mov_load_text", "AL.Lemmas.MemText.mem_line", "AL.Lemmas.MemLoad.mem_bytes", "AL.Lemmas.MemLoad.memBytes_canonical", "AL.Spec.X86.leVal_assembleConst", "AL.Spec.X86.toSigned_roundtrip",
             "AL.Properties.C11.swap_same_address", "AL.Properties.C11.nobase_scale2_same_address", "AL.Properties.C11.nobase_scale1_same_address"],
     "C03": ["AL.Properties.Sweep.c03_sweep", "AL.Properties.C03.written_number_value", "AL.Properties.C03.written_number_value_padded", "AL.Properties.C03.imm_field_reads_back", "AL.Properties.C03.imm_field_dword", "AL.Properties.C03.imm_field_qword",
@@ -2337,7 +2358,7 @@ ENC_THEOREMS = {
             "AL.Properties.C03.aluOps_digits", "AL.Lemmas.Alu.alu_bytes", "AL.Lemmas.Alu.aluKeys_classified", "AL.Lemmas.AluText.alu_line", "AL.Spec.AluImm.aluRead_aluBytes",
             "AL.Lemmas.assembleImm_dword", "AL.Lemmas.assembleImm_qword", "AL.Lemmas.assembleImm_reduced", "AL.Lemmas.assembleConst_pad",
             "AL.Lemmas.strtoul_dec", "AL.Lemmas.strtoul_hex", "AL.Lemmas.strtoul_neg_dec", "AL.Lemmas.strtoul_neg_hex"],
-    "C04": ["AL.Properties.Sweep.c04_sweep", "AL.Properties.C04.vex2_is_vex3"],
+    "C04": ["AL.Properties.Sweep.c04_sweep", "AL.Properties.C04.vex2_is_vex3", "AL.Properties.C04.vex_prefix_fields", "AL.Properties.C04.vecpair_fields", "AL.Properties.C01.regpair_fields"],
     "C05": ["AL.Properties.Sweep.c05_sweep", "AL.Properties.C05.rel_field_reads_back", "AL.Properties.C05.written_displacement", "AL.Properties.C03.written_number_value_padded",
             "AL.Properties.C05.rel_branch_every_d", "AL.Properties.C05.rel_branch_text_dec", "AL.Properties.C05.rel_branch_text_neg_dec",
             "AL.Properties.C05.rel_branch_text_hex", "AL.Properties.C05.rel_branch_text_neg_hex", "AL.Lemmas.BranchText.branch_line", "AL.Lemmas.Branch.relKeys_classified", "AL.Lemmas.Branch.j_bytes", "AL.Lemmas.Branch.c_bytes", "AL.Lemmas.Branch.r_bytes"],
@@ -2556,6 +2577,8 @@ def check_C17(cx):
             else:
                 if kv.get("earlier_intact") != "1":
                     bad = "code assembled earlier is not intact / retrievable after the failed call"
+                elif kv.get("lenmatch", "1") != "1":
+                    bad = "after the call the recorded buffer length is not the size the kernel was asked for (later growth or unmapping uses it)"
                 elif kv.get("destroy") != "0":
                     bad = "the instance cannot be destroyed"
                 elif kv.get("asm3") != "0" or kv.get("delta3") != "3":
@@ -2875,7 +2898,7 @@ def check_C19(cx):
         setopt = ["S %d mov %d" % (i, opt & 3) for i in (0, 1)] + ["S %d swap %d" % (i, (opt >> 2) & 1) for i in (0, 1)] + \
                  ["S %d nobase %d" % (i, (opt >> 3) & 1) for i in (0, 1)]
         start = r.choice([0, 0, 7, 100])
-        c = r.choice([2, 5, 16, 64])
+        c = r.choice([2, 5, 16, 64, 0, 1])      # sizes below 2: the counting entry points assemble plainly and report 0, whatever the fitting mode
         # chunk fitting switched on before the file is assembled: the file entry point honours it as the string entry point does
         if fi % 3 == 1:
             kfit = r.choice([2, 7, 8, 16])
@@ -3043,6 +3066,8 @@ def check_C20(cx):
              b"mov rax, 0x1122334455667788\n\nret\n", b"nop\nmov rax, 0x1122334455667788\n\n\n  \n\nmov rcx, 0x1122334455667788\n\n\n",
              # CR-only and CRLF line ends (the library ends a line at either character; getline cuts at LF only)
              b"mov rax, 0x11\radd rax, 0x22\rret\n", b"nop\r\nmov rcx, 0x1122334455667788\r\nret\r\n",
+             # raw lines longer than any fixed line buffer (blanks do not count towards the library's 100-character limit)
+             b"mov rax," + b" " * 100 + b"rbx\nmov eax," + b" " * 88 + b"0x12345678\nadd rax, rcx" + b" " * 300 + b"; c\n" + b"\t" * 250 + b"ret\n",
              b"", b"ret", b"mov rdx, 0x1122334455667788\n" * 700]
     for _ in range(3 if quick else 30):
         progs.append(g.program(r.choice([4, 12, 40])))
@@ -3053,7 +3078,7 @@ def check_C20(cx):
     for pi, prog in enumerate(progs):
         modes = CLI_MODES if pi == 0 else r.sample(CLI_MODES, 4 if quick else 10)
         for mode in modes:
-            for out in (outs if pi < 8 or len(prog) > 6000 else r.sample(outs, 5)):
+            for out in (outs if pi < 9 or len(prog) > 6000 else r.sample(outs, 5)):
                 for stdin in (False, True):
                     cases_.append((pi, mode + out if r.random() < 0.5 else out + mode, stdin))
     # -r on side-effect free programs
